@@ -165,7 +165,7 @@ func runC08(c *Ctx) {
 			c.Check(w == nil, "zero/always-when-disabled", "the 'initialDelay <= 0 || faults < 1' edge always returns 0", c.P.Pos(fn.Decl.Pos()), f.describe(w))
 		}
 		// every return is 0 | maxDelay | a local computed by the guarded shift and compared with maxDelay
-		for _, a := range f.FindOnce(IsReturn) {
+		for _, a := range f.Returns() {
 			r := a.N.(*ast.ReturnStmt)
 			if len(r.Results) != 1 {
 				c.Bad("ret/shape", "single result", c.P.Pos(r.Pos()), "")
@@ -316,7 +316,7 @@ func runC08(c *Ctx) {
 		c.Check(w == nil, "stamp-always", "the last-fault timestamp is refreshed on every call", c.P.Pos(fn.Decl.Pos()), f.describe(w))
 		// return value is the Inc result
 		okRet := true
-		for _, a := range f.FindOnce(IsReturn) {
+		for _, a := range f.Returns() {
 			r := a.N.(*ast.ReturnStmt)
 			if len(r.Results) != 1 || !inc(ast.Unparen(r.Results[0])) {
 				okRet = false
